@@ -5,6 +5,7 @@
 //! bytes, and watches every carve through the arena hook. Oracles: FIT, CLEAN, (MAX follows from
 //! FIT + the generous run).
 pub mod ops;
+pub mod ops2;
 
 use crate::driver::{Acc, CheckImpl, Tier, Viol, announce};
 use crate::fhe::{BACKENDS, EvalSpec, PrepSpec, RunOut, RunResult, Window, WindowMode, backend};
@@ -294,8 +295,17 @@ pub fn generate(seed: u64, idx: u64, thorough: bool) -> Case {
     let mut rng = Rng::new(mix(seed, 0xC12, idx));
     let backend_name = BACKENDS[(idx % 4) as usize];
     let b = backend(backend_name);
-    let ops = b.core_ops();
-    let slot = (idx / 4) % (ops.len() as u64 + 3);
+    let all_ops = b.core_ops();
+    // cheap single-call ops are drawn four times as often as the heavy ones (32-bit word circuits,
+    // circuit bootstrapping), which cost tens of milliseconds per window
+    let mut ops: Vec<&'static str> = Vec::new();
+    for o in all_ops {
+        let heavy = o.starts_with("word_") || o.starts_with("circuit_bootstrapping");
+        for _ in 0..(if heavy { 1 } else { 4 }) {
+            ops.push(o);
+        }
+    }
+    let slot = (idx / 4) % (ops.len() as u64 + 6);
     let ns: &[u32] = if backend_name == "NTT120Avx" { &[16, 32] } else { &[8, 16, 32] };
     let subject = if (slot as usize) < ops.len() {
         let mut shape = random_shape(&mut rng, thorough);
@@ -306,7 +316,7 @@ pub fn generate(seed: u64, idx: u64, thorough: bool) -> Case {
             op: ops[slot as usize].to_string(),
             shape,
         }
-    } else if slot as usize == ops.len() {
+    } else if (slot as usize) < ops.len() + 3 {
         let outputs = rng.range(1, 8) as usize;
         Subject::Eval(EvalSpec {
             n: *rng.pick(ns),
@@ -327,7 +337,7 @@ pub fn generate(seed: u64, idx: u64, thorough: bool) -> Case {
             word_bits,
             bit_start,
             bit_count,
-            threads: if slot as usize == ops.len() + 1 { 1 } else { *rng.pick(&[2usize, 3, 4]) },
+            threads: if slot as usize == ops.len() + 3 { 1 } else { *rng.pick(&[2usize, 3, 4]) },
         })
     };
     Case {
@@ -352,7 +362,7 @@ impl CheckImpl for C12 {
     fn units(&self, tier: Tier, _seed: u64) -> u64 {
         match tier {
             Tier::Quick => 12_800 / BATCH,
-            Tier::Thorough => 320_000 / BATCH,
+            Tier::Thorough => 160_000 / BATCH,
         }
     }
     fn run_unit(&mut self, tier: Tier, seed: u64, unit: u64, acc: &mut Acc, viols: &mut Vec<Viol>) {
